@@ -90,6 +90,14 @@ def explain(fmt, *args):
             NOTES.append(fmt % args if args else fmt)
         except Exception:
             NOTES.append(fmt)
+    elif os.environ.get("VERIF_DEBUG"):
+        try:
+            from crosshair.tracers import NoTracing
+            with NoTracing():
+                txt = fmt % tuple(a if isinstance(a, (int, str, list, tuple)) and type(a) in (int, str, list, tuple) else "?" for a in args)
+        except Exception:
+            txt = fmt
+        raise RuntimeError("explain: " + txt)        # debugging aid: shows which check failed on the symbolic path
 
 
 def same(got, exp, what=""):
@@ -181,3 +189,44 @@ def be_int(raw, signed=False):
         from engine import chmodels
         return chmodels.compose_be(raw, signed)
     return int.from_bytes(bytes(raw), "big", signed=signed)
+
+
+def hexpair(c0, c1):
+    """(valid, value) of two ASCII hex characters (either case) as a byte value; symbolic-friendly"""
+    if STATE["symbolic"]:
+        from engine import chmodels
+        return chmodels.hexpair(c0, c1)
+    ok = all(chr(c) in "0123456789abcdefABCDEF" for c in (c0, c1))
+    return ok, (int(bytes([c0, c1]).decode("ascii"), 16) if ok else 0)
+
+
+def is_hex(c):
+    if STATE["symbolic"]:
+        from engine import chmodels
+        return chmodels.is_hex(c)
+    return chr(c) in "0123456789abcdefABCDEF"
+
+
+def lnot(x):
+    """logical negation that stays symbolic (never use ~ on bools: ~True == -2 is truthy)"""
+    if STATE["symbolic"]:
+        from engine import chmodels
+        return chmodels.lnot(x)
+    return not x
+
+
+def crc16_from(stream, i):
+    """list c where c[j] = crc16(stream[i:j]) for j in i..len(stream) (index j-i); one pass"""
+    if STATE["symbolic"]:
+        from engine import chmodels
+        return chmodels.crc_fold_all(stream, i)
+    from spec.checksums import crc16_modbus
+    return [crc16_modbus(bytes(stream[i:j])) for j in range(i, len(stream) + 1)]
+
+
+def lohi(c):
+    """(low byte, high byte) of a 16-bit value"""
+    if STATE["symbolic"]:
+        from engine import chmodels
+        return chmodels.split16(c)
+    return c % 256, c // 256
